@@ -28,13 +28,13 @@ def outOf (r : HRes) : Out :=
   | some t => .error { text := t }
   | none => .reply r.msg
 
-abbrev UExec := List Msg → Prog Out
+abbrev UExec := List Msg → UProg Out
 
-def callRet (c : HCall) : Prog Out := .call c (fun r => .ret (outOf r))
-def failE (e : Err) : Prog Out := .ret (.error e)
-def replyP (m : Msg) : Prog Out := .ret (.reply m)
+def callRet (c : HCall) : UProg Out := .call c (fun r => .ret (outOf r))
+def failE (e : Err) : UProg Out := .ret (.error e)
+def replyP (m : Msg) : UProg Out := .ret (.reply m)
 
-def withArgs {α : Type} (r : R α) (args : List Msg) (k : α → List Msg → Prog Out) : Prog Out :=
+def withArgs {α : Type} (r : R α) (args : List Msg) (k : α → List Msg → UProg Out) : UProg Out :=
   match r args with
   | .error e => failE e
   | .ok (a, rest) => k a rest
@@ -230,7 +230,7 @@ def nextRangeScore (pf : FloatOracle) : R (UInt64 × Bool) := fun s =>
     | .ok x => .ok (x, rest)
     | .error e => .error e
 
-def execZRangeByScore (pf : FloatOracle) (rev : Bool) (finish : Bool → HRes → Prog Out) : UExec := fun args =>
+def execZRangeByScore (pf : FloatOracle) (rev : Bool) (finish : Bool → HRes → UProg Out) : UExec := fun args =>
   withArgs (nextString b!"key") args fun k rest =>
   withArgs (nextRangeScore pf) rest fun a rest =>
   withArgs (nextRangeScore pf) rest fun b rest =>
@@ -251,7 +251,7 @@ def reversePairs (l : List Msg) : List Msg :=
   if l.length % 2 = 0 then reverseEvenPairs l else reverseEvenPairs l.tail ++ l.take 1
 
 /-- what ZREVRANGE / ZREVRANGEBYSCORE do with the handler's reply -/
-def reverseReply (withscores : Bool) (r : HRes) : Prog Out :=
+def reverseReply (withscores : Bool) (r : HRes) : UProg Out :=
   match r.err with
   | some t => failE { text := t }
   | none =>
@@ -338,7 +338,7 @@ def execZAdd (pf : FloatOracle) : UExec := fun args =>
 /-! ## Composites over primitive handler operations -/
 
 /-- call the handler once per element, stop at the first error, collect the replies -/
-def callEach {α : Type} (mk : α → HCall) : List α → (List Msg → Prog Out) → Prog Out
+def callEach {α : Type} (mk : α → HCall) : List α → (List Msg → UProg Out) → UProg Out
   | [], k => k []
   | a :: as, k => .call (mk a) fun r =>
     match r.err with
@@ -350,7 +350,7 @@ def execMSet : UExec := fun args =>
   callEach (fun (p : Bytes × Bytes) => HCall.set p.1 p.2 {}) kvs fun _ => replyP okMsg
 
 /-- the GET probes of MSETNX: an existing key answers `:0`; a nil message is dereferenced (panic) -/
-def msetnxProbe : List (Bytes × Bytes) → Prog Out → Prog Out
+def msetnxProbe : List (Bytes × Bytes) → UProg Out → UProg Out
   | [], k => k
   | (key, _) :: ps, k => .call (.get key) fun r =>
     match r.err with
@@ -380,7 +380,7 @@ def execHMGet : UExec := fun args =>
   callEach (HCall.hget h) fs fun ms => replyP (.arr ms)
 
 /-- INCR / DECR / INCRBY / DECRBY: GET, add, SET; non-integers and 64-bit overflow are errors -/
-def incDec (key : Bytes) (delta : Int) : Prog Out :=
+def incDec (key : Bytes) (delta : Int) : UProg Out :=
   .call (.get key) fun r =>
   match r.err with
   | some t => failE { text := t }
@@ -456,7 +456,7 @@ def countUntilAbsent : List Msg → Nat
   | _ :: ms => countUntilAbsent ms + 1
 
 /-- SCARD / ZCARD on the handler's reply -/
-def cardReply (r : HRes) : Prog Out :=
+def cardReply (r : HRes) : UProg Out :=
   match r.err with
   | some t => failE { text := t }
   | none => match r.msg with
@@ -551,15 +551,21 @@ def hvalsOf : List Msg → List Bytes
 
 /-- the span-and-gate wrapper of `executeCommand` around a body -/
 def gated (conn : ConnSt) (ucmd : Bytes) (body : Prog Out) : Prog Out :=
-  .emit (.spanStart ucmd) <|
-    if !conn.authorized && ucmd != b!"AUTH" then .emit .spanFinish (failE errNotAuthorized)
+  .emit (.start ucmd) <|
+    if !conn.authorized && ucmd != b!"AUTH" then .emit .finish (.ret (.error errNotAuthorized))
     else body.andFinish
 
 /-- `executeCommand` for a command of the user table -/
 def execUser (pf : FloatOracle) (srv : SrvSt) (conn : ConnSt) (cmd : Bytes) (args : List Msg) : Option (Prog Out) :=
   match (userTable pf).lookup (upper cmd) with
   | none => none
-  | some ex => some (if !srv.hasHandler then replyP (notSupported cmd) else gated conn (upper cmd) (ex args))
+  | some ex => some (if !srv.hasHandler then .ret (.reply (notSupported cmd)) else gated conn (upper cmd) (ex args).lift)
+
+/-- executors that nest other commands: they also start and finish spans -/
+abbrev NExec := List Msg → Prog Out
+
+def nreply (m : Msg) : Prog Out := .ret (.reply m)
+def nfail (e : Err) : Prog Out := .ret (.error e)
 
 /-- a nested `server.executeCommand(conn, name, args)` of a sugar command (name is a user-table command) -/
 def nestedCall (pf : FloatOracle) (srv : SrvSt) (conn : ConnSt) (name : Bytes) (args : List Msg) (k : Out → Prog Out) : Prog Out :=
@@ -567,48 +573,48 @@ def nestedCall (pf : FloatOracle) (srv : SrvSt) (conn : ConnSt) (name : Bytes) (
   | none => k (.reply (notSupported name))
   | some p => p.bind k
 
-def execHKeys (pf : FloatOracle) (srv : SrvSt) (conn : ConnSt) : UExec := fun args =>
+def execHKeys (pf : FloatOracle) (srv : SrvSt) (conn : ConnSt) : NExec := fun args =>
   nestedCall pf srv conn b!"HGETALL" args fun o =>
   match o with
   | .reply .absent => .panic
   | .reply .arrNil => .panic
-  | .reply (.arr es) => replyP (.arr ((hkeysOf es).map newBulk))
-  | .reply _ => replyP (.arr [])
+  | .reply (.arr es) => nreply (.arr ((hkeysOf es).map newBulk))
+  | .reply _ => nreply (.arr [])
   | other => .ret other
 
-def execHVals (pf : FloatOracle) (srv : SrvSt) (conn : ConnSt) : UExec := fun args =>
+def execHVals (pf : FloatOracle) (srv : SrvSt) (conn : ConnSt) : NExec := fun args =>
   nestedCall pf srv conn b!"HGETALL" args fun o =>
   match o with
   | .reply .absent => .panic
   | .reply .arrNil => .panic
-  | .reply (.arr es) => replyP (.arr ((hvalsOf es).map newBulk))
-  | .reply _ => replyP (.arr [])
+  | .reply (.arr es) => nreply (.arr ((hvalsOf es).map newBulk))
+  | .reply _ => nreply (.arr [])
   | other => .ret other
 
-def execStrLen (pf : FloatOracle) (srv : SrvSt) (conn : ConnSt) : UExec := fun args =>
+def execStrLen (pf : FloatOracle) (srv : SrvSt) (conn : ConnSt) : NExec := fun args =>
   nestedCall pf srv conn b!"GET" args fun o =>
   match o with
   | .reply .absent => .panic
-  | .reply m => (match msgStr m with | .ok v => replyP (newInteger v.length) | .error _ => replyP (newInteger 0))
+  | .reply m => (match msgStr m with | .ok v => nreply (newInteger v.length) | .error _ => nreply (newInteger 0))
   | other => .ret other
 
-def execHExists (pf : FloatOracle) (srv : SrvSt) (conn : ConnSt) : UExec := fun args =>
+def execHExists (pf : FloatOracle) (srv : SrvSt) (conn : ConnSt) : NExec := fun args =>
   nestedCall pf srv conn b!"HGET" args fun o =>
   match o with
   | .reply .absent => .panic
-  | .reply m => (match msgStr m with | .ok _ => replyP (newInteger 1) | .error _ => replyP (newInteger 0))
+  | .reply m => (match msgStr m with | .ok _ => nreply (newInteger 1) | .error _ => nreply (newInteger 0))
   | other => .ret other
 
-def execHStrLen (pf : FloatOracle) (srv : SrvSt) (conn : ConnSt) : UExec := fun args =>
+def execHStrLen (pf : FloatOracle) (srv : SrvSt) (conn : ConnSt) : NExec := fun args =>
   nestedCall pf srv conn b!"HGET" args fun o =>
   match o with
   | .reply .absent => .panic
-  | .reply (.bulk none) => replyP (newInteger 0)
-  | .reply m => (match msgStr m with | .ok v => replyP (newInteger v.length) | .error e => failE e)
+  | .reply (.bulk none) => nreply (newInteger 0)
+  | .reply m => (match msgStr m with | .ok v => nreply (newInteger v.length) | .error e => nfail e)
   | other => .ret other
 
 /-- the sugar commands that nest one level -/
-def nested1 (pf : FloatOracle) (srv : SrvSt) (conn : ConnSt) (ucmd : Bytes) : Option UExec :=
+def nested1 (pf : FloatOracle) (srv : SrvSt) (conn : ConnSt) (ucmd : Bytes) : Option NExec :=
   if ucmd = b!"STRLEN" then some (execStrLen pf srv conn)
   else if ucmd = b!"SUBSTR" then some (fun args => nestedCall pf srv conn b!"GETRANGE" args .ret)
   else if ucmd = b!"HEXISTS" then some (execHExists pf srv conn)
@@ -618,13 +624,13 @@ def nested1 (pf : FloatOracle) (srv : SrvSt) (conn : ConnSt) (ucmd : Bytes) : Op
   else none
 
 /-- HLEN nests HKEYS, which nests HGETALL -/
-def execHLen (pf : FloatOracle) (srv : SrvSt) (conn : ConnSt) : UExec := fun args =>
-  (if !srv.hasHandler then replyP (notSupported b!"HKEYS") else gated conn b!"HKEYS" (execHKeys pf srv conn args)).bind fun o =>
+def execHLen (pf : FloatOracle) (srv : SrvSt) (conn : ConnSt) : NExec := fun args =>
+  (if !srv.hasHandler then nreply (notSupported b!"HKEYS") else gated conn b!"HKEYS" (execHKeys pf srv conn args)).bind fun o =>
   match o with
-  | .reply (.arr es) => replyP (newInteger es.length)
+  | .reply (.arr es) => nreply (newInteger es.length)
   | .reply .absent => .panic
-  | .reply .arrNil => replyP (newInteger 0)   -- not reachable: HKEYS always answers with an array
-  | .reply _ => failE errType
+  | .reply .arrNil => nreply (newInteger 0)   -- not reachable: HKEYS always answers with an array
+  | .reply _ => nfail errType
   | other => .ret other
 
 /-! ## Connection-management and server-management commands -/
@@ -702,9 +708,9 @@ def executeCommand (pf : FloatOracle) (srv : SrvSt) (conn : ConnSt) (cmd : Bytes
   if !srv.hasHandler then .ret (.reply (notSupported cmd), conn, srv) else
   match execSystem srv conn ucmd args with
   | some (o, conn', srv') =>
-    .emit (.spanStart ucmd) <|
-      if !conn.authorized && ucmd != b!"AUTH" then .emit .spanFinish (.ret (.error errNotAuthorized, conn, srv))
-      else .emit .spanFinish (.ret (o, conn', srv'))
+    .emit (.start ucmd) <|
+      if !conn.authorized && ucmd != b!"AUTH" then .emit .finish (.ret (.error errNotAuthorized, conn, srv))
+      else .emit .finish (.ret (o, conn', srv'))
   | none =>
     match execUser pf srv conn cmd args with
     | some p => keep p
